@@ -756,7 +756,12 @@ class SuitTag(SuitObject):
         cbor = cls.deserialize_cbor(cbstr)
         if not hasattr(cbor, "tag") or cls._metadata.tag.value != cbor.tag:
             raise SUITError(f"CBOR tag not found in: {cbor}")
-        return cls(cbor2.CBORTag(cbor.tag, cls._metadata.children[0].from_cbor(cls.serialize_cbor(cbor.value))))
+        try:
+            value = cls._metadata.children[0].from_cbor(cls.serialize_cbor(cbor.value))
+        except RecursionError:
+            # input nested deeper than the parser can follow is invalid input, not an internal error
+            raise ValueError("The data is nested too deeply!")
+        return cls(cbor2.CBORTag(cbor.tag, value))
 
     def to_cbor(self) -> bytes:
         """Dump SUIT representation to cbor encoded bytes."""
@@ -778,7 +783,10 @@ class SuitTag(SuitObject):
     @log_call
     def to_obj(self) -> dict:
         """Dump SUIT representation to object."""
-        return {self._metadata.tag.name: self.value.value.to_obj()}
+        try:
+            return {self._metadata.tag.name: self.value.value.to_obj()}
+        except RecursionError:
+            raise ValueError("The data is nested too deeply!")
 
 
 class SuitList(SuitObject):
